@@ -200,8 +200,19 @@ def end_rule_siblings(ctx: Ctx, rid: str) -> None:
         v = lm.rules["variable_begin"][0].pat.pattern.replace(ph("variable_end_string"), "END")
         ctx.check(v == "\\-END\\s*|END", f"{cfgname}:variable", "lexer:Lexer.__init__", "variable end rule", f"variable end rule is {v!r}: variable tags are never affected by trim_blocks", "src/jinja2/lexer.py")
     init = repo.func("lexer:Lexer.__init__")
+    # (normal form: the conditional expression is the if / else it abbreviates)
     asg = [n for n in ast.walk(init.node) if isinstance(n, ast.Assign) and ast.unparse(n.targets[0]) == "block_suffix_re"]
-    ctx.check(len(asg) == 1 and ast.unparse(asg[0].value) == "'\\\\n?' if environment.trim_blocks else ''", "suffix:trim_blocks", "lexer:Lexer.__init__", "suffix depends on trim_blocks only", f"block_suffix_re = {ast.unparse(asg[0].value) if asg else None}", init.loc())
+    rows_s: dict[str, list] = {}
+    for a in asg:
+        if isinstance(a.value, ast.IfExp):
+            from .normalize import atoms as _atoms2
+
+            rows_s[ast.unparse(a.value.body)] = astq.guard_atoms(init.node, a) + _atoms2(a.value.test, True)
+            rows_s[ast.unparse(a.value.orelse)] = astq.guard_atoms(init.node, a) + _atoms2(a.value.test, False)
+        else:
+            rows_s[ast.unparse(a.value)] = astq.guard_atoms(init.node, a)
+    ok_s = set(rows_s) == {"'\\\\n?'", "''"} and rows_s["'\\\\n?'"] == [("environment.trim_blocks", True)] and rows_s["''"] == [("environment.trim_blocks", False)]
+    ctx.check(ok_s, "suffix:trim_blocks", "lexer:Lexer.__init__", "suffix depends on trim_blocks only", f"block_suffix_re = {ast.unparse(asg[0].value) if asg else None}", init.loc())
 
 
 def sign_group_rule(ctx: Ctx, rid: str) -> None:
@@ -313,7 +324,7 @@ def lstrip_rules(ctx: Ctx, rid: str) -> None:
     loops = [n for n in ast.walk(ti.node) if isinstance(n, ast.For) and "statetokens" in ast.unparse(n.iter)]
     ctx.need(len(loops) == 1, "rule loop not found")
     gs = [ast.unparse(g) for g, pol in guards_of(ls[0], stop=loops[0])]
-    ctx.check(not gs and ast.unparse(ls[0].value) == "m.group()[-1:] == '\\n'", "line_starting:every-match", "lexer:Lexer.tokeniter", f"line_starting update under {gs}",
+    ctx.check(not gs and ast.unparse(ls[0].value) in ("m.group()[-1:] == '\\n'", "m.group().endswith('\\n')", "'\\n' == m.group()[-1:]"), "line_starting:every-match", "lexer:Lexer.tokeniter", f"line_starting update under {gs}",
               f"line_starting must be recomputed after every matched rule (guards found: {gs}): a stale value makes lstrip_blocks strip (or keep) whitespace before a tag that does not start its line, e.g. right after {{% raw %}}", ti.loc(ls[0]), detail={"guards": gs})
     init = [n for n in ast.walk(ti.node) if isinstance(n, ast.Assign) and ast.unparse(n.targets[0]) == "line_starting" and ast.unparse(n.value) == "True"]
     ctx.check(len(init) == 1, "line_starting:init", "lexer:Lexer.tokeniter", "initial value", "line_starting must start as True", ti.loc())
